@@ -349,3 +349,333 @@ def r28_functions(ctx, specs, rule='R28'):
         if not bad_any:
             run.ok(rule, fi.where, fi.qualname, '%d loop(s), carried state only %s' % (len(lps), sorted(allowed) or 'none'))
     return n
+
+
+# ---------------------------------------------------------------------- R31 SHARED-CLASS-STATE
+
+_MUTABLE_CTORS = {'dict', 'list', 'set', 'defaultdict', 'OrderedDict', 'Counter', 'deque', 'bytearray'}
+
+
+def _is_mutable_literal(v):
+    if isinstance(v, (ast.Dict, ast.List, ast.Set, ast.DictComp, ast.ListComp, ast.SetComp)):
+        return True
+    if isinstance(v, ast.Call):
+        f = v.func
+        nm = f.id if isinstance(f, ast.Name) else (f.attr if isinstance(f, ast.Attribute) else None)
+        return nm in _MUTABLE_CTORS
+    return False
+
+
+def shared_class_state(class_node, subclass_nodes=()):
+    """Class-level mutable containers of `class_node` that some method (of the class or of a subclass) mutates in place through
+    self / cls / the class name, without the class giving each instance its own container first.
+    -> [(attribute, mutating node)], [attributes inspected]"""
+    attrs = {}
+    for st in class_node.body:
+        tgts = st.targets if isinstance(st, ast.Assign) else ([st.target] if isinstance(st, ast.AnnAssign) and st.value is not None else [])
+        for t in tgts:
+            if isinstance(t, ast.Name) and _is_mutable_literal(st.value):
+                attrs[t.id] = st.value
+    if not attrs:
+        return [], []
+    recv = {'self', 'cls', class_node.name} | {c.name for c in subclass_nodes}
+    methods = [m for c in (class_node,) + tuple(subclass_nodes) for m in c.body if isinstance(m, (ast.FunctionDef, ast.AsyncFunctionDef))]
+    # an instance gets its own container when __init__ (of the class) assigns self.<attr> unconditionally
+    own = set()
+    for m in class_node.body:
+        if isinstance(m, ast.FunctionDef) and m.name == '__init__':
+            for st in m.body:
+                if isinstance(st, ast.Assign):
+                    for t in st.targets:
+                        if isinstance(t, ast.Attribute) and isinstance(t.value, ast.Name) and t.value.id == 'self' and t.attr in attrs:
+                            own.add(t.attr)
+    bad = []
+    for m in methods:
+        for n in ast.walk(m):
+            def is_attr(e):
+                return isinstance(e, ast.Attribute) and isinstance(e.value, ast.Name) and e.value.id in recv and \
+                    e.attr in attrs and e.attr not in own
+            if isinstance(n, (ast.Assign, ast.AugAssign, ast.Delete)):
+                tgts = n.targets if isinstance(n, (ast.Assign, ast.Delete)) else [n.target]
+                for t in tgts:
+                    if isinstance(t, ast.Subscript) and is_attr(t.value):
+                        bad.append((t.value.attr, n))
+                    if isinstance(n, ast.AugAssign) and is_attr(t):
+                        bad.append((t.attr, n))       # self.X += [...] mutates the shared list in place
+            elif isinstance(n, ast.Call) and isinstance(n.func, ast.Attribute) and n.func.attr in MUT and is_attr(n.func.value):
+                bad.append((n.func.value.attr, n))
+    return bad, sorted(attrs)
+
+
+_R31_CONTROL = '''
+class Writer:
+    table = {}
+    names = []
+    def __init__(self, fields):
+        for f in fields:
+            self.table[f.name] = f.serializer
+    def add(self, n):
+        self.names.append(n)
+class Fine:
+    TABLE = {'a': 1}
+    own = {}
+    def __init__(self):
+        self.own = {}
+        self.own['x'] = self.TABLE['a']
+'''
+
+
+def r31_shared_class_state(ctx, include=None, rule='R31'):
+    """Every class of the package (or those `include` accepts): no class-level mutable container is mutated in place through an
+    instance - that would be one object shared by all instances (all writers of all dumpers in one pipeline, every use of a step)."""
+    run = ctx.run
+    run.rule(rule, 'SHARED-CLASS-STATE: a mutable container defined at class level is never mutated in place through self / cls / the '
+                   'class name (subscript store, augmented assignment, append / update / setdefault ...) unless __init__ first gives '
+                   'the instance its own container: otherwise every instance - every writer of every dumper in a pipeline, every use '
+                   'of a step - shares one object and what one of them records changes what the others do')
+    # positive control: the detector must flag the planted defect and stay silent on the clean twin, on every run
+    ctl = ast.parse(_R31_CONTROL)
+    w, f = [c for c in ctl.body if isinstance(c, ast.ClassDef)]
+    if sorted(a for a, _ in shared_class_state(w)[0]) != ['names', 'table'] or shared_class_state(f)[0]:
+        raise AnalysisError('R31 self-check failed: the shared-class-state detector does not recognise its control example')
+    n = 0
+    for c in sorted(ctx.repo.classes.values(), key=lambda c: c.qualname):
+        if include is not None and not include(c):
+            continue
+        subs = [s.node for s in ctx.res.subclasses(c, strict=True)]
+        bad, attrs = shared_class_state(c.node, subs)
+        for a in attrs:
+            n += 1
+            hits = [x for x in bad if x[0] == a]
+            if not hits:
+                run.ok(rule, c.where, '%s.%s' % (c.qualname, a), 'class-level container, never mutated through an instance')
+            for _a, node in hits:
+                run.fail(rule, where(ctx.repo, node), c.qualname, 'class-level %s mutated in place' % a,
+                         'the container %s.%s is created once, at class level, and this statement changes it through an instance: all '
+                         'instances share it (e.g. every file writer of every dumper placed in one pipeline), so what one instance '
+                         'stores is used by the others' % (c.name, a))
+    return n
+
+
+# ---------------------------------------------------------------------- R32 LATE-BINDING
+
+def _free_reads(fnode):
+    """Names a nested function / lambda reads that it neither takes as a parameter nor binds itself."""
+    a = fnode.args
+    bound = {x.arg for x in a.posonlyargs + a.args + a.kwonlyargs}
+    if a.vararg:
+        bound.add(a.vararg.arg)
+    if a.kwarg:
+        bound.add(a.kwarg.arg)
+    body = fnode.body if isinstance(fnode.body, list) else [fnode.body]
+    reads = set()
+    for st in body:
+        for n in ast.walk(st):
+            if isinstance(n, ast.Name):
+                if isinstance(n.ctx, ast.Store):
+                    bound.add(n.id)
+                else:
+                    reads.add(n.id)
+            elif isinstance(n, ast.comprehension):
+                for t in ast.walk(n.target):
+                    if isinstance(t, ast.Name):
+                        bound.add(t.id)
+            elif isinstance(n, (ast.FunctionDef, ast.AsyncFunctionDef)):
+                bound.add(n.name)
+    return reads - bound
+
+
+def late_bound_closures(func_node):
+    """Closures created inside a loop that read, as a free variable, a name the loop rebinds on every iteration, and that outlive
+    the iteration (stored in a container / attribute, yielded, returned).  When such a closure finally runs it sees the value of
+    the LAST iteration, whatever it was when the closure was created.  -> [(closure node, loop node, names)]"""
+    out = []
+    loops = [n for n in ast.walk(func_node) if isinstance(n, (ast.For, ast.While))]
+    for lp in loops:
+        rebound = set()
+        if isinstance(lp, ast.For):
+            rebound |= {n.id for n in ast.walk(lp.target) if isinstance(n, ast.Name)}
+        inner_funcs = []
+        stack = list(lp.body)
+        while stack:
+            n = stack.pop()
+            if isinstance(n, (ast.FunctionDef, ast.AsyncFunctionDef, ast.Lambda)):
+                inner_funcs.append(n)
+                continue            # what a nested function binds is its own
+            if isinstance(n, ast.Name) and isinstance(n.ctx, ast.Store):
+                rebound.add(n.id)
+            stack.extend(ast.iter_child_nodes(n))
+        for f in inner_funcs:
+            free = _free_reads(f) & rebound
+            if not free:
+                continue
+            # defaults are evaluated at definition time: `def part(row, key=key)` is the safe idiom, covered by _free_reads (params)
+            fname = getattr(f, 'name', None)
+            escapes = False
+            for n in ast.walk(lp):
+                def is_f(e):
+                    return e is f or (fname is not None and isinstance(e, ast.Name) and e.id == fname)
+                if isinstance(n, ast.Call) and isinstance(n.func, ast.Attribute) and n.func.attr in MUT | {'put', 'register'} and \
+                        any(is_f(a) or (isinstance(a, (ast.Tuple, ast.List)) and any(is_f(e) for e in a.elts)) for a in n.args):
+                    escapes = True
+                elif isinstance(n, ast.Assign) and any(isinstance(t, (ast.Subscript, ast.Attribute)) for t in n.targets) and \
+                        (is_f(n.value) or (isinstance(n.value, (ast.Tuple, ast.List)) and any(is_f(e) for e in n.value.elts))):
+                    escapes = True
+                elif isinstance(n, (ast.Yield, ast.Return)) and n.value is not None and \
+                        (is_f(n.value) or (isinstance(n.value, (ast.Tuple, ast.List)) and any(is_f(e) for e in n.value.elts))):
+                    # returning from inside the loop ends the loop: the binding cannot change any more
+                    escapes = escapes or isinstance(n, ast.Yield)
+            if escapes:
+                out.append((f, lp, sorted(free)))
+    return out
+
+
+_R32_CONTROL = '''
+def build(specs):
+    parts = []
+    for key, fmt in specs:
+        raw = fmt is None
+        def part(row, key=key):
+            return row[key] if raw else fmt.format(row[key])
+        parts.append(part)
+    return parts
+def fine(specs):
+    parts = []
+    for key, fmt in specs:
+        def part(row, key=key, fmt=fmt):
+            return fmt.format(row[key])
+        parts.append(part)
+        rows = sorted(specs, key=lambda s: s[0] == key)
+    return parts
+'''
+
+
+def r32_late_binding(ctx, include=None, rule='R32'):
+    run = ctx.run
+    run.rule(rule, 'LATE-BINDING: a function or lambda created inside a loop and kept beyond the iteration (appended / stored / '
+                   'yielded) does not read, as a free variable, a name the loop rebinds: it would see the value of the last '
+                   'iteration when it finally runs (values needed per iteration are bound as parameter defaults or by a factory)')
+    ctl = ast.parse(_R32_CONTROL)
+    b, f = [c for c in ctl.body if isinstance(c, ast.FunctionDef)]
+    got = late_bound_closures(b)
+    if len(got) != 1 or got[0][2] != ['fmt', 'raw'] or late_bound_closures(f):
+        raise AnalysisError('R32 self-check failed: the late-binding detector does not recognise its control example')
+    n = 0
+    for fi in sorted(ctx.repo.functions.values(), key=lambda f: f.qualname):
+        if isinstance(fi.node, ast.Lambda) or isinstance(fi.parent, FuncInfo):
+            continue            # nested functions are walked with their outermost function
+        if include is not None and not include(fi):
+            continue
+        loops = [x for x in ast.walk(fi.node) if isinstance(x, (ast.For, ast.While))]
+        if not any(isinstance(y, (ast.FunctionDef, ast.Lambda)) for lp in loops for y in ast.walk(lp)):
+            continue
+        n += 1
+        hits = late_bound_closures(fi.node)
+        if not hits:
+            run.ok(rule, fi.where, fi.qualname, 'closures created in loops bind what they need at creation')
+        for f_, lp, names in hits:
+            run.fail(rule, where(ctx.repo, f_), fi.qualname, 'closure kept beyond the iteration reads loop variable(s) %s' % ', '.join(names),
+                     'the closure created in this loop is stored for later use but reads %s from the enclosing scope, which every '
+                     'iteration rebinds: all stored closures see the value of the last iteration' % ', '.join(names))
+    return n
+
+
+# ---------------------------------------------------------------------- R33 GROUPBY-RUNS
+
+def _is_sorted_expr(e, fnode, key_dump):
+    """sorted(x[, key=k]) with the same key as the groupby, or a name whose only definition is such a call / that is .sort()ed"""
+    if isinstance(e, ast.Call) and isinstance(e.func, ast.Name) and e.func.id == 'sorted':
+        k = [kw.value for kw in e.keywords if kw.arg == 'key']
+        return (ast.dump(k[0]) if k else None) == key_dump
+    if isinstance(e, ast.Name):
+        defs = [n.value for n in ast.walk(fnode) if isinstance(n, ast.Assign) and len(n.targets) == 1 and
+                isinstance(n.targets[0], ast.Name) and n.targets[0].id == e.id]
+        if len(defs) == 1 and _is_sorted_expr(defs[0], fnode, key_dump):
+            return True
+        for n in ast.walk(fnode):
+            if isinstance(n, ast.Call) and isinstance(n.func, ast.Attribute) and n.func.attr == 'sort' and \
+                    isinstance(n.func.value, ast.Name) and n.func.value.id == e.id:
+                k = [kw.value for kw in n.keywords if kw.arg == 'key']
+                if (ast.dump(k[0]) if k else None) == key_dump:
+                    return True
+    return False
+
+
+def groupby_as_mapping(func_node, is_groupby):
+    """itertools.groupby over a sequence that is not sorted by the grouping key, whose (key, group) pairs are collected into a
+    mapping / set keyed by the key: equal keys that are not adjacent form several runs, and a later run replaces the earlier one.
+    -> [(groupby call, collecting node)]"""
+    out = []
+    for n in ast.walk(func_node):
+        gens = []
+        if isinstance(n, (ast.DictComp, ast.SetComp)):
+            gens = n.generators
+        elif isinstance(n, ast.Call) and isinstance(n.func, ast.Name) and n.func.id in ('dict', 'Counter', 'OrderedDict', 'set') and \
+                n.args and isinstance(n.args[0], (ast.GeneratorExp, ast.ListComp)):
+            gens = n.args[0].generators
+        for g in gens:
+            if isinstance(g.iter, ast.Call) and is_groupby(g.iter) and g.iter.args:
+                key = [kw.value for kw in g.iter.keywords if kw.arg == 'key']
+                if len(g.iter.args) > 1:
+                    key = [g.iter.args[1]]
+                kd = ast.dump(key[0]) if key else None
+                if not _is_sorted_expr(g.iter.args[0], func_node, kd):
+                    out.append((g.iter, n))
+        # for k, grp in groupby(x): table[k] = ...
+        if isinstance(n, ast.For) and isinstance(n.iter, ast.Call) and is_groupby(n.iter) and n.iter.args and \
+                isinstance(n.target, ast.Tuple) and len(n.target.elts) == 2 and isinstance(n.target.elts[0], ast.Name):
+            kname = n.target.elts[0].id
+            key = [kw.value for kw in n.iter.keywords if kw.arg == 'key']
+            if len(n.iter.args) > 1:
+                key = [n.iter.args[1]]
+            kd = ast.dump(key[0]) if key else None
+            if _is_sorted_expr(n.iter.args[0], func_node, kd):
+                continue
+            for x in ast.walk(n):
+                if isinstance(x, ast.Assign) and any(isinstance(t, ast.Subscript) and isinstance(t.slice, ast.Name) and
+                                                     t.slice.id == kname for t in x.targets):
+                    out.append((n.iter, x))
+    return out
+
+
+_R33_CONTROL = '''
+import itertools
+def bad(keys):
+    totals = {k: len(list(g)) for k, g in itertools.groupby(keys)}
+    return totals
+def fine(keys):
+    totals = {k: len(list(g)) for k, g in itertools.groupby(sorted(keys))}
+    runs = [(k, len(list(g))) for k, g in itertools.groupby(keys)]
+    return totals, runs
+'''
+
+
+def r33_groupby_runs(ctx, include=None, rule='R33'):
+    run = ctx.run
+    run.rule(rule, 'GROUPBY-RUNS: itertools.groupby groups only adjacent equal keys; a mapping or set keyed by the group key is built '
+                   'from it only when the sequence was sorted by that same key - otherwise equal keys that are apart form several '
+                   'runs and a later run silently replaces an earlier one (counts, totals and membership come out wrong)')
+    ctl = ast.parse(_R33_CONTROL)
+    fb, ff = [c for c in ctl.body if isinstance(c, ast.FunctionDef)]
+    isg = lambda c: isinstance(c.func, ast.Attribute) and c.func.attr == 'groupby' or isinstance(c.func, ast.Name) and c.func.id == 'groupby'
+    if len(groupby_as_mapping(fb, isg)) != 1 or groupby_as_mapping(ff, isg):
+        raise AnalysisError('R33 self-check failed: the groupby detector does not recognise its control example')
+    n = 0
+    for fi in sorted(ctx.repo.functions.values(), key=lambda f: f.qualname):
+        if isinstance(fi.node, ast.Lambda) or isinstance(fi.parent, FuncInfo):
+            continue
+        if include is not None and not include(fi):
+            continue
+        is_g = lambda c: ctx.res.external_name(c) == 'itertools.groupby'
+        sites = [c for c in ast.walk(fi.node) if isinstance(c, ast.Call) and is_g(c)]
+        if not sites:
+            continue
+        n += len(sites)
+        hits = groupby_as_mapping(fi.node, is_g)
+        if not hits:
+            run.ok(rule, fi.where, fi.qualname, '%d groupby site(s): sorted by the grouping key, or used as runs' % len(sites))
+        for g, coll in hits:
+            run.fail(rule, where(ctx.repo, g), fi.qualname, 'mapping keyed by groupby key over an unsorted sequence: %s' % u(coll)[:100],
+                     'itertools.groupby only merges adjacent equal keys, the sequence is not sorted by the key, and the groups are '
+                     'collected under their key: two occurrences that are apart give two groups and the second replaces the first')
+    return n
